@@ -163,6 +163,9 @@ func parent() {
 			}
 		}
 	}
+	// ---- what an accepted hostile message leaves behind (in this process: a handler panic is recovered by net/http)
+	r.Guard("stored oddities", func() { storedOddities(r) })
+
 	if r.Counter("cases_not_run_after_a_confirmed_missing_answer") == 0 {
 		r.Floor("hostile_messages_executed", executed, n*95/100)
 		for _, s := range allStates {
